@@ -141,5 +141,120 @@ def main():
     return 1 if bad else 0
 
 
+
+
+# ------------------------------------------------------------------------------------------ whole functions, concretely
+def crosscheck_serializer(n=300):
+    """the REAL serialize_value / deserialize_value of /repo run concretely inside the engine (its struct / BytesIO / codec models)
+    against the same functions run natively by CPython: bytes written, value read back, position, exceptions"""
+    import io, importlib.util
+    from pyvc import libspec, loader
+    repo = os.environ.get('PYVC_REPO', '/repo')
+    try:
+        import types, importlib
+        pkg = types.ModuleType('mpg_native')
+        pkg.__path__ = [os.path.join(repo, 'mpgameserver')]     # (a bare package: the real __init__ imports the crypto library)
+        sys.modules['mpg_native'] = pkg
+        nat = importlib.import_module('mpg_native.serializable')
+    except Exception as e:
+        print('serializer cross-check skipped: native import failed: %r' % (e,))
+        return 0
+    rng = random.Random(7)
+    ints = [0, 1, -1, 127, 128, -127, -128, -129, 32767, 32768, -32768, -32769, 2 ** 31 - 1, 2 ** 31, -2 ** 31, -2 ** 31 - 1,
+            2 ** 63 - 1, -2 ** 63, 2 ** 63, -2 ** 63 - 1, 255, 256, 65535, 65536]
+    strs = ['', 'a', 'héllo', '﻿x', '世界', 'x' * 300, '\x00']
+    byts = [b'', b'\x00', b'abc', bytes(range(256))]
+
+    def leaf():
+        k = rng.randrange(6)
+        if k == 0:
+            return rng.choice(ints)
+        if k == 1:
+            return rng.choice(strs)
+        if k == 2:
+            return rng.choice(byts)
+        if k == 3:
+            return rng.choice([True, False])
+        if k == 4:
+            return None
+        return rng.randrange(-10 ** 12, 10 ** 12)
+
+    def value(depth=0):
+        k = rng.randrange(8 if depth < 2 else 4)
+        if k < 4:
+            return leaf()
+        if k == 4:
+            return [value(depth + 1) for _ in range(rng.randrange(4))]
+        if k == 5:
+            return tuple(value(depth + 1) for _ in range(rng.randrange(4)))
+        if k == 6:
+            return {rng.choice(ints[:8] + strs[:3]): value(depth + 1) for _ in range(rng.randrange(3))}
+        return set(rng.sample(ints, rng.randrange(4)))
+
+    bad = []
+    vals = list(ints) + list(strs) + list(byts) + [True, False, None, [], (), {}, set()] + [value() for _ in range(n)]
+    for v in vals:
+        s = io.BytesIO()
+        try:
+            nat.serialize_value(s, v)
+            want = ('val', s.getvalue())
+        except Exception as e:
+            want = ('exc', type(e).__name__)
+        ctx = Ctx([], new_path=True)
+        ip = Interp(ctx)
+        try:
+            es = libspec.BytesIOVal(ip, None)
+            ip.call_function(ip.repo.func('serializable.serialize_value'), [es, to_engine(v)], {})
+            got = ('val', es.buf if isinstance(es.buf, bytes) else None)
+            if got[1] is None:
+                continue
+        except PyExc as e:
+            got = ('exc', e.name)
+        except Unsupported:
+            continue
+        if ctx.forks:
+            continue
+        if want[0] != got[0] or (want[0] == 'val' and want[1] != got[1]):
+            if want[0] == 'val' and got[0] == 'val' and len(want[1]) == len(got[1]):
+                # (sets are written in iteration order, which is not specified: accept bytes that natively decode to the same value)
+                try:
+                    if nat.deserialize_value(io.BytesIO(got[1])) == nat.deserialize_value(io.BytesIO(want[1])):
+                        continue
+                except Exception:
+                    pass
+            if not (want[0] == 'exc' and got[0] == 'exc'):
+                bad.append(('serialize_value', repr(v)[:80], got, want))
+            continue
+        if want[0] != 'val':
+            continue
+        data = want[1] + b'tail'
+        r = io.BytesIO(data)
+        w = nat.deserialize_value(r)
+        ctx = Ctx([], new_path=True)
+        ip = Interp(ctx)
+        try:
+            es = libspec.BytesIOVal(ip, data)
+            g = from_engine(ip.call_function(ip.repo.func('serializable.deserialize_value'), [es], {}))
+            pos = es.pos if isinstance(es.pos, int) else None
+        except (PyExc, Unsupported):
+            continue
+        if ctx.forks:
+            continue
+        if g != w or (pos is not None and pos != r.tell()):
+            bad.append(('deserialize_value', repr(v)[:80], (g, pos), (w, r.tell())))
+    for b in bad[:20]:
+        print('DIFF', b)
+    print('serializer: %d values, %d differences' % (len(vals), len(bad)))
+    return len(bad)
+
+
+_main = main
+
+
+def main():
+    rc = _main()
+    return 1 if (crosscheck_serializer() or rc) else 0
+
+
 if __name__ == '__main__':
     sys.exit(main())
